@@ -507,6 +507,14 @@ acquire_start(struct AcquireRuntime* self_)
     EXPECT(self->valid_video_streams > 0,
            "At least one video stream must be marked valid");
 
+    // Refuse to start on top of a running acquisition. Falling through to the
+    // error path below would stop the cameras from this thread while the
+    // source threads are still using them (and stop them a second time).
+    if (acquire_get_state(self_) == DeviceState_Running) {
+        LOGE("Cannot start: an acquisition is already running.");
+        return AcquireStatus_Error;
+    }
+
     for (int i = 0; i < countof(self->video); ++i) {
         struct video_s* video = self->video + i;
         if (((self->valid_video_streams >> i) & 1) == 0) {
